@@ -378,7 +378,7 @@ impl<'a> Exec<'a> {
         let (t4, t6) = (self.maps.ipv4.verif_num_torrents(), self.maps.ipv6.verif_num_torrents());
         let (m4, m6) = (self.model.num_torrents(Fam::V4), self.model.num_torrents(Fam::V6));
         if t4 != m4 || t6 != m6 {
-            self.fail(&["C07"], "torrent-dropped-when-empty", "torrent-count", format!("after clean at {} s the storage holds {}/{} (v4/v6) torrent entries but {} / {} torrents have peers and are permitted", now, t4, t6, m4, m6));
+            self.fail(&["C07", "C10"], "torrent-dropped-when-empty", "torrent-count", format!("after clean at {} s the storage holds {}/{} (v4/v6) torrent entries but {} / {} torrents have peers and are permitted", now, t4, t6, m4, m6));
             return;
         }
         self.scrape_all(stats, &["C10", "C07"], "state-after-clean");
